@@ -138,6 +138,23 @@ CHECKS["C18"] = dict(
          "The auto-restart and shell-command tricks are outside this check.",
 )
 
+CHECKS["C12"] = dict(
+    engine="sbvm+sbvm-t",
+    technique="SMT (z3): fault position/errno in watch construction as solver variables over the real Inotify.__init__ "
+              "(Engine A); bounded model checking of the reader thread against close() over a descriptor-table model "
+              "(Engine B)",
+    level=("model_checking",
+           "A: inotify_init or any of the first three inotify_add_watch calls of a (non-)recursive watch on a "
+           "three-directory tree fails with ENOSPC/EMFILE/ENOENT/EACCES: a raising constructor has closed everything it "
+           "opened, a successful one followed by close() likewise, nothing twice. B: all interleavings (40 steps) of "
+           "InotifyBuffer.run/Inotify.read_events with InotifyBuffer.close: no use of a closed descriptor, no double "
+           "close, all three descriptors released and the reader finished when close() returns.",
+           "DESIGN.md section 9, C12"),
+    note="Trusted: the descriptor-table/inotify seam model (vf/kernelmodel.py), threading models, mover reduction "
+         "(_closed/_is_reading accesses are scheduling points), z3. Process-level descriptor counting over many real "
+         "cycles is outside.",
+)
+
 NOT_YET = "check not built yet (work in progress; see DESIGN.md section 11 for the order)"
 NA = {}
 
